@@ -29,4 +29,20 @@ func (PrintReporter).Flush returns (err)
   modifies ghost(bufSticky, sinkFailed, sinkPend)
   ensures @sink [C17] BufStep(pr.output)
   ensures @reports-loss [C17] (err != nil) == bufSticky[pr.output] && (err == nil ==> sinkPend[bufSink[pr.output]] == 0)
+
+// ---------------------------------------------------------------------------------------------
+// The print command: it succeeds only if the whole log was read without a malformed line (C09, C10) and
+// nothing written to the output was lost: the sink has not failed and nothing is left pending (C17).
+// ---------------------------------------------------------------------------------------------
+func Print returns (err)
+  props C08 C09 C10 C17
+  requires @sink pc.ReporterConfig.Output != nil && !typeis(pc.ReporterConfig.Output, "*bufio.Writer") && !typeis(pc.ReporterConfig.Output, "*encoding/csv.Writer")
+  modifies *
+  modifies ghost(cbLen, cbErr, cbNode, cbStop, cbRet, cbLineNo, cbLine, cbHeader, cbElems, cbNElems, scRd, scPos, privLo, evOf, accKey, accP, accN, accH, bufSink, bufSticky, sinkFailed, sinkPend, prLen, prSink, prArg, prArgs, tnodes, tdepth, tmax, tmapOf)
+  let out := payload(pc.ReporterConfig.Output)
+  let rd := payload(logStream)
+  let cc := pc.ParserConfig.CommentChar
+  ensures @fails-on-malformed [C09] err == nil ==> (forall i int :: {RdLine(rd, i)} 0 <= i && i < RdN(rd) ==> !Malformed(rd, i, cc))
+  ensures @fails-on-unreadable [C10] err == nil ==> !RdFailed(rd)
+  ensures @reports-loss [C17] err == nil ==> (sinkFailed[out] ==> old(sinkFailed[out])) && sinkPend[out] == 0
 @*/
